@@ -8,6 +8,7 @@ pub mod gen;
 pub mod mon_c01;
 pub mod mon_c02;
 pub mod mon_c03;
+pub mod mon_c06;
 pub mod mon_c08;
 pub mod mon_c09;
 pub mod mon_c10;
@@ -81,6 +82,23 @@ pub fn registry() -> Vec<Property> {
                packet arrived during the closing period). Distinct = distinct scenarios.",
         assumptions: &["frames are decoded by the harness's own RFC 9000 parser (wire.rs)"],
         subs: mon_c12::subs(),
+        shards: 0,
+    },
+    Property {
+        id: "C06",
+        rule: "C01-style scenarios on a clean network plus 1-40 attacker actions at generated instants after the handshake (racing the unauthenticated Initial exchange is outside the property), aimed at \
+               the server or the client, from the genuine peer's address or a foreign one: random datagrams, verbatim replays (1-8 copies) of any \
+               genuine datagram seen so far, bit flips, truncations, extensions, header/body splices of two genuine datagrams, toggled first-byte \
+               bits (key phase, reserved, fixed, packet-number length). Oracle: every packet handed to frame processing was sealed by the peer \
+               connection under that number with byte-identical cleartext, at most once per (connection, space, number); no forged number is ever \
+               acknowledged; payload oracle of C01; no close/reset other than application closes; application-visible outcome equals that of the \
+               same scenario without the attacker. Non-trivial: an injected datagram reached an endpoint after both sides confirmed the handshake \
+               and a genuine 1-RTT datagram was replayed after the original.",
+        assumptions: &[
+            "'holding the keys' is modelled as 'was sealed by the peer endpoint in this process'; no cryptanalytic claim; constant-time behaviour is not observable",
+            "cipher suite is whatever s2n-tls negotiates with itself (one suite); the stateless-reset exception is not exercised (the attacker never has the token)",
+        ],
+        subs: mon_c06::subs(),
         shards: 0,
     },
     Property {
